@@ -561,8 +561,14 @@ static void iauth_xquery_password(struct iauth_request *req,
                 continue;
 
             srv = iauth_xquery_services.vec[ii];
-            if (!srv || !srv->configured)
+            if (!srv || !srv->configured) {
+                /* The service was retired by a reload; its challenge
+                 * can no longer be answered.  Forget it, or every
+                 * later password would be taken for a response.
+                 */
+                cli->more_mask &= ~(1u << ii);
                 continue;
+            }
             iauth_x_query(srv->name, routing, "MORE %s", password);
             cli->more_mask &= ~(1u << ii);
             if (!cli->ref_mask) {
